@@ -184,6 +184,11 @@ class SliceView:
         return "Slice(%r[%s..%s])" % (self.base, self.start, self.end)
 
 
+class Atom:
+    """immutable model value (updated functionally): copies share it"""
+    pass
+
+
 class Uninit:
     def __repr__(self):
         return "<uninit>"
@@ -366,7 +371,7 @@ def clone_val(v):
         return FnVal(v.name, clone_val(v.env) if v.env is not None else None)
     if isinstance(v, PMap):
         return PMap(v.ty, v.base, [(clone_val(k), clone_val(x)) for k, x in v.entries])
-    if isinstance(v, (Int, Bool, Float, Unit, Opaque, Uninit, SliceView)):
+    if isinstance(v, (Int, Bool, Float, Unit, Opaque, Uninit, SliceView, Atom)):
         return v
     if isinstance(v, Ref):
         return Ref(v.box, v.path, v.mut)
